@@ -757,6 +757,9 @@ func (fc *FnCtx) doSlice(x *ssa.Slice) {
 			hi = fc.val(x.High).S()
 		}
 		fc.nilCheck(xv.C[0], x.Pos(), x.X)
+		if f := fc.familyOf[x]; f != nil && f.root == ssa.Value(x) {
+			f.c = xv.C[0]
+		}
 		fc.oblige("bounds", x.Name(), fmt.Sprintf("(and (<= 0 %s) (<= %s %s) (<= %s %s))", lo, lo, hi, hi, n), x.Pos(), nil)
 		fc.setVal(x, mkVal(x.Type(), []string{xv.C[0], lo, fmt.Sprintf("(- %s %s)", hi, lo), fmt.Sprintf("(- %s %s)", n, lo)}))
 	default:
@@ -771,6 +774,9 @@ func (fc *FnCtx) doMakeSlice(x *ssa.MakeSlice) {
 	fc.allocCheck(cp, x.Pos())
 	r := fc.allocRef(x.Name(), x.Type())
 	fc.allocSite[x] = r.S()
+	if f := fc.familyOf[x]; f != nil && f.root == ssa.Value(x) {
+		f.c = r.S()
+	}
 	et := x.Type().Underlying().(*types.Slice).Elem()
 	fc.zeroInit(types.NewArray(et, 0), r.S())
 	fc.setVal(x, mkVal(x.Type(), []string{r.S(), "0", ln, cp}))
